@@ -25,6 +25,7 @@ def zlist(xs):
     return "(" + common.zlist(xs) + ")%Z"
 
 import c10_search as S
+import c10_emitter as E
 
 THEOREMS = ["C10_loop_is_per_sample_add", "C10_entry_is_dt_times_sample_count", "C10_inactive_cells_receive_nothing",
             "C10_entries_sum_to_active_length", "C10_all_active_sum_is_length", "C10_interval_sample_count",
@@ -32,7 +33,12 @@ THEOREMS = ["C10_loop_is_per_sample_add", "C10_entry_is_dt_times_sample_count", 
             "C10_merged_map_additive", "C10_phi_index_periodic", "C10_dt_below_two_steps",
             "C10_mask_map_spec", "C10_sample_point_formula",
             "C10_pipeline0d_matrix_is_mean_of_own_samples", "C10_pipeline0d_history_independent",
-            "C10_pipelineNd_rows_are_means", "C10_pipelineNd_history_independent"]
+            "C10_pipelineNd_rows_are_means", "C10_pipelineNd_history_independent",
+            "C10_too_short_path_changes_nothing", "C10_integrate_entry_is_dt_times_samples",
+            "C10_integrate_all_active_sums_to_length", "C10_ring_index_spec", "C10_cyl_region_met_in_at_most_two_intervals",
+            "C10_axisymmetric_cell_met_in_at_most_two_intervals", "C10_rejected_assignment_changes_nothing",
+            "C10_accepted_assignment_forgets_the_past", "C10_mask_assignment_roundtrip", "C10_ctrunc_respects_Qeq",
+            "C10_executable_samples_give_the_code_cells", "C10_integrate_cartesian_cell_error_at_most_one_step"]
 
 PHI_TABLE = [(30, n) for n in (1, 2, 3, 4, 6, 12)] + [(45, n) for n in (1, 2, 4, 8)] + \
             [(60, n) for n in (1, 2, 3, 6)] + [(90, n) for n in (1, 2, 4)] + [(120, n) for n in (1, 3)] + \
@@ -669,7 +675,8 @@ def pipe_case_coq(dim, hist, outs):
     return "b2z (check_pn %s %s)" % (h, "[" + "; ".join(rows) + "]")
 
 
-HEADER = ("Require Import Cherab.Common.Qx Cherab.Model.C10_RayTransfer Cherab.Model.C10_Pipeline Cherab.Model.C10_Check.\n"
+HEADER = ("Require Import Cherab.Common.Qx Cherab.Model.C10_RayTransfer Cherab.Model.C10_Pipeline Cherab.Model.C10_Emitter "
+          "Cherab.Model.C10_Check.\n"
           "Open Scope Q_scope.\n")
 
 
@@ -942,19 +949,32 @@ def run(ctx):
         hist = S.gen_pipeline_history(rng, dim)
         pipe_hist.append((dim, hist, S.drive_pipeline_api(dim, hist)))
     pipe_cases = [pipe_case_coq(dim, hist, outs) for dim, hist, outs in pipe_hist]
-    aux_all = mask_checks + phi_cases + chord_cases + pipe_cases + emission_lines
+    # ---- emitters: state-machine histories and argument validation (model: Model/C10_Emitter.v) ----
+    em_lines, em_dist = E.emitter_histories(rng, impl, 24 if quick else 240, lambda r, k, e, b: gen_grid(r, k, e, False, 0),
+                                            variant_form, pre_fails)
+    val_lines = E.validation_cases(rng, impl, 40 if quick else 400)
+    aux_all = mask_checks + phi_cases + chord_cases + pipe_cases + emission_lines + em_lines + val_lines
+    # ---- translator: the numeric constants of the model regenerated from the current source + tie lemma ----
+    try:
+        consts_path = ctx.write_gen("Consts.v", E.translate_constants())
+    except ValueError as exc:
+        consts_path = None
+        ctx.obligation("Gen tie Consts.v (constants of the model = constants of emitters.pyx)", "tie", False, str(exc))
     aux_paths = []
     for ai in range(0, len(aux_all), 400):
         aux_paths.append(ctx.write_gen("maps_phi_%03d.v" % (ai // 400), HEADER + "Definition results : list Z := [\n  "
                                        + ";\n  ".join(aux_all[ai:ai + 400]) + "].\nEval vm_compute in results.\n"))
     import time as _t
     _t0 = _t.time()
-    res = coqc_many([p for p, _ in paths] + aux_paths, timeout=1500)
+    res = coqc_many([p for p, _ in paths] + aux_paths + ([consts_path] if consts_path else []), timeout=1500)
     for p_ in list(res):
         if not res[p_][0] and not res[p_][1].strip():
             # killed without output (memory pressure when many checks run at once): once more, alone
             res[p_] = common.coqc(p_, timeout=1500)
     ctx.log('coqc on %d files: %.1fs' % (len(paths) + len(aux_paths), _t.time() - _t0))
+    if consts_path:
+        ok_c, out_c = res[consts_path]
+        ctx.obligation("Gen tie Consts.v (constants of the model = constants of emitters.pyx: 0.1, 0.5, 360, 180, 1e-3, guards)", "tie", ok_c, out_c[-800:])
     codes = {}
     diff = []
     for p, ids in paths:
@@ -983,8 +1003,8 @@ def run(ctx):
     good = good and len(zs) == len(aux_all)
     bad_aux = [i for i, z in enumerate(zs) if z == 0]
     ctx.obligation("correspondence maps_phi_*.v (%d mask/voxel-map setters, %d angular-formula points, %d exact Cartesian chords, "
-                   "%d pipeline histories, %d emission_function points)" % (len(mask_checks), len(phi_cases), len(chord_cases),
-                                                                             len(pipe_cases), len(emission_lines)),
+                   "%d pipeline histories, %d emission_function points, %d emitter histories, %d validation cases)"
+                   % (len(mask_checks), len(phi_cases), len(chord_cases), len(pipe_cases), len(emission_lines), len(em_lines), len(val_lines)),
                    "correspondence", good and not bad_aux,
                    out[-1500:] if not good else "DISAGREE at %s" % bad_aux)
     n_calls = len(flat)
@@ -996,6 +1016,7 @@ def run(ctx):
     stats = {"rays": 0, "cells_compared": 0, "periodic": 0, "merged": 0, "traced_rays": 0}
     stats.update(live_stats)
     stats["argument_forms"] = arg_forms
+    stats["emitter_history_ops"] = em_dist
     order = sorted(range(n_calls), key=lambda i: (0 if i in set(diff) else 1, i))
     budget = len(order) if quick else min(len(order), 4000)
     for i in order[:budget]:
@@ -1073,7 +1094,12 @@ def run(ctx):
         "rule": "one case = one call of integrate(); non-trivial = compared up to rounding only (no ambiguous sample), "
                 "returned normally and changed at least two spectral bins",
         "distribution": dist,
-        "tolerance": {"per_bin": "dt * (#samples within 2^-40 of a cell border) + 2^-36 * (length + |entry|)",
+        "tolerance": {"per_bin": "dt * (#samples within 2^-40 of a cell border) + (n + 4) * 2^-51 * (length + |entry|)  [n = number of samples; "
+                                 "rounding of dt and of n + #flushes additions]",
+                      "exact": "IndexError / too-short, voxel_map, bins, reported mask and error kind after every emitter assignment, "
+                               "argument-validation error kinds, emission_function increments, model chord vs harness cut (Fractions)",
+                      "pipelines": "every matrix entry of every observation: relative 2^-40",
+                      "constants": "0.1 (too-short factor), 0.5, 360, 180, 1e-3, min_samples guard: regenerated from emitters.pyx, tie lemma by reflexivity",
                       "length_oracle": "len^2 within 2^-30 relative of the exact |end-start|^2",
                       "discrete": "IndexError / too-short / voxel_map / bins compared exactly",
                       "search": "entries against exact chord lengths: 2 dt + 1e-9 per cell (Cartesian chords exact in Fractions, "
